@@ -333,8 +333,22 @@ fn raw_case(src: &mut Src, ctx: &mut Ctx) -> Result<(), String> {
     let (g, listing) = gen_embedded(src);
     classify(&g, &listing, ctx);
     ctx.sample("raw library cell graph", || describe(&g, &listing));
-    let ptrs: Vec<Ptr<raw::Cell>> = (0..g.len()).map(|i| Ptr::new(raw::Cell::from(raw::Layout { name: name_of(i), ..Default::default() }))).collect();
+    // cells without instances are, one time in four, abstract-only (no layout view at all)
+    let views = src.u64();
+    let ptrs: Vec<Ptr<raw::Cell>> = (0..g.len())
+        .map(|i| {
+            if g[i].is_empty() && (views >> (2 * (i % 32))) & 3 == 3 {
+                let outline = raw::Polygon { points: vec![raw::Point::new(0, 0), raw::Point::new(1, 0), raw::Point::new(1, 1), raw::Point::new(0, 1)] };
+                Ptr::new(raw::Cell::from(raw::Abstract::new(name_of(i), outline)))
+            } else {
+                Ptr::new(raw::Cell::from(raw::Layout { name: name_of(i), ..Default::default() }))
+            }
+        })
+        .collect();
     for (i, deps) in g.iter().enumerate() {
+        if deps.is_empty() {
+            continue;
+        }
         let mut c = ptrs[i].write().unwrap();
         let lay = c.layout.as_mut().unwrap();
         for (k, d) in deps.iter().enumerate() {
@@ -383,10 +397,25 @@ fn gds_case(src: &mut Src, ctx: &mut Ctx) -> Result<(), String> {
     judge_membership(&g, &listing, res, "GDSII import (Library::from_gds)")
 }
 
-fn tetris_lib(g: &Graph, listing: &[usize]) -> tet::library::Library {
-    use tet::{cell::Cell, instance::Instance, layout::Layout, outline::Outline};
-    let ptrs: Vec<Ptr<Cell>> = (0..g.len()).map(|i| Ptr::new(Cell::from(Layout::new(name_of(i), 0, Outline::rect(1, 1).unwrap())))).collect();
+/// `views` decides, two bits per node (mod 32), which view a cell WITHOUT instances gets: a layout,
+/// an abstract only, or a raw-layout pointer only. Cells with instances always have a layout.
+fn tetris_lib(g: &Graph, listing: &[usize], views: u64) -> tet::library::Library {
+    use tet::{abs::Abstract, cell::Cell, cell::RawLayoutPtr, instance::Instance, layout::Layout, outline::Outline};
+    let rawlib = Ptr::new(raw::Library::new("rawlib", raw::Units::Nano));
+    let ptrs: Vec<Ptr<Cell>> = (0..g.len())
+        .map(|i| {
+            let kind = if g[i].is_empty() { (views >> (2 * (i % 32))) & 3 } else { 0 };
+            Ptr::new(match kind {
+                2 => Cell::from(Abstract::new(name_of(i), 0, Outline::rect(1, 1).unwrap())),
+                3 => Cell::from(RawLayoutPtr { outline: Outline::rect(1, 1).unwrap(), metals: 0, lib: rawlib.clone(), cell: Ptr::new(raw::Cell::new(name_of(i))) }),
+                _ => Cell::from(Layout::new(name_of(i), 0, Outline::rect(1, 1).unwrap())),
+            })
+        })
+        .collect();
     for (i, deps) in g.iter().enumerate() {
+        if deps.is_empty() {
+            continue;
+        }
         let mut c = ptrs[i].write().unwrap();
         let lay = c.layout.as_mut().unwrap();
         for (k, d) in deps.iter().enumerate() {
@@ -403,14 +432,19 @@ fn tetris_case(src: &mut Src, ctx: &mut Ctx) -> Result<(), String> {
     let (g, listing) = gen_embedded(src);
     classify(&g, &listing, ctx);
     ctx.sample("gridded-layout library cell graph", || describe(&g, &listing));
-    let lib = tetris_lib(&g, &listing);
+    let views = src.u64();
+    if (0..g.len()).any(|i| g[i].is_empty() && (views >> (2 * (i % 32))) & 3 >= 2 && g.iter().filter(|d| d.contains(&i)).count() >= 2) {
+        ctx.label("shared cell without a layout view (abstract-only / raw-only)");
+    }
+    let lib = tetris_lib(&g, &listing, views);
     let res = crate::props::compat::tetris_dep_order(&lib).and_then(|o| o.iter().map(|p| index_of(&p.read().unwrap().name)).collect());
     judge(&g, &listing, res, "tetris Library::dep_order")
 }
 fn tetris_proto_case(src: &mut Src, ctx: &mut Ctx) -> Result<(), String> {
     let (g, listing) = gen_embedded(src);
     classify(&g, &listing, ctx);
-    let lib = tetris_lib(&g, &listing);
+    let views = src.u64();
+    let lib = tetris_lib(&g, &listing, views);
     let res = match tet::conv::proto::ProtoExporter::export(&lib) {
         Err(e) => Err(format!("{:?}", e)),
         Ok(p) => p.cells.iter().map(|c| index_of(&c.name)).collect(),
